@@ -1040,6 +1040,7 @@ class Emitter:
 
     def collect_typeinfos(s):
         s.ti_base = {}
+        s.ti_bases = {}
         names = [g for g in s.m.globals if g.startswith('_ZTI')]
         for g in names:
             ty, init, _ = s.m.globals[g]
@@ -1054,6 +1055,21 @@ class Emitter:
             if base is None:
                 base = s.KNOWN_STD_BASES.get(g)
             s.ti_base[g] = base
+            if s.opts.get('eh_nested'):
+                # --eh-nested: every base with its offset.  __si_class_type_info { vtable, name, base };
+                # __vmi_class_type_info { vtable, name, i32 flags, i32 count, ( base, i64 offset << 8 | flags )* } (Itanium C++ ABI 2.9.5)
+                bl = []
+                if isinstance(init, ConstAgg) and len(init.elems) >= 6 and isinstance(init.elems[2][1], ConstInt) and isinstance(init.elems[3][1], ConstInt):
+                    for k in range(init.elems[3][1].v):
+                        bv = init.elems[4 + 2 * k][1]
+                        while isinstance(bv, ConstExpr):
+                            bv = bv.args[0][1]
+                        of = init.elems[5 + 2 * k][1].v
+                        if isinstance(bv, Global) and not (of & 1):      # virtual bases are not supported (ignored)
+                            bl.append((bv.name, of >> 8))
+                elif base is not None:
+                    bl.append((base, 0))
+                s.ti_bases[g] = bl
         for k, v in s.KNOWN_STD_BASES.items():
             s.ti_base.setdefault(k, v)
         s.ti_base.setdefault('_ZTISt9exception', None)
@@ -1124,6 +1140,7 @@ class Emitter:
             for ins in b.instrs:
                 if ins.op == 'cast' and ins.cop == 'bitcast' and ins.res is not None:
                     s.castmap[ins.res] = (ins.ty, ins.a)
+        s.defs = {ins.res: ins for b in f.blocks for ins in b.instrs if ins.res is not None}
         s.inl = {}
         if s.opts.get('inline_gep'):
             for b in f.blocks:
@@ -1253,6 +1270,36 @@ class Emitter:
     def emit_call(s, f, b, ins):
         callee = ins.callee
         lines = []
+        if not isinstance(callee, Global) and s.opts.get('vcall'):
+            # --vcall: an indirect call is a case split over the functions whose address is stored in a virtual table of the module
+            # and whose IR signature is the one of the call; any other target is reported like before
+            sig = (repr(ins.ret), [repr(at) for (at, _) in ins.args])
+            cands = []
+            for n in sorted(s.vfuncs):
+                if n in s.m.functions:
+                    fs = (repr(s.m.functions[n].ret), [repr(pt) for (pt, _) in s.m.functions[n].params])
+                else:
+                    fs = (repr(s.m.declares[n][0]), [repr(pt) for (pt, _) in s.m.declares[n][1]])
+                if fs == sig:
+                    cands.append(n)
+            args = [s.val(av, at) for (at, av) in ins.args]
+            has_res = ins.res is not None and not isinstance(s.resolve(ins.ret), VoidTy)
+            res = f"v_{cname(ins.res)} = " if has_res else ''
+            fp = s.val(callee, None)
+            chain = ''
+            for n in cands:
+                chain += f"if ((vptr){fp} == (vptr)&{s.fname(n)}) {res}{s.fname(n)}({', '.join(args)}); else "
+            chain += "{ __VERIFIER_indirect_call(); " + (f"v_{cname(ins.res)} = {s.zero_of(ins.ret)}; " if has_res else '') + "}"
+            lines = [chain]
+            throws = any(s.may_throw(n) for n in cands) and 'nounwind' not in s.fn_attrs(getattr(ins, 'attrs', []))
+            if ins.op == 'invoke':
+                if throws:
+                    lines.append(f"if (__exc_pending) {s.edge(f, b, ins.unwind)} else {s.edge(f, b, ins.normal)}")
+                else:
+                    lines.append(s.edge(f, b, ins.normal))
+            elif throws:
+                lines.append(f"if (__exc_pending) return {s.zero_of(f.ret)};")
+            return lines
         if not isinstance(callee, Global):
             # indirect calls are not modelled: reaching one is reported by the harness
             lines = ["__VERIFIER_indirect_call();"]
@@ -1292,7 +1339,21 @@ class Emitter:
                     lines.append(f"vf_{fn}((void*){args[0]}, (const void*){args[1]}, {args[2]});")
             throws = False
         elif name.startswith('llvm.memset'):
-            lines.append(f"memset((void*){args[0]}, {args[1]}, {args[2]});"); throws = False
+            done = False
+            if s.opts.get('typed_memset') and isinstance(ins.args[2][1], ConstInt) and isinstance(ins.args[1][1], ConstInt) and ins.args[1][1].v == 0:
+                # --typed-memset: zeroing one whole aggregate of constant size becomes a typed assignment of a zero object (keeps the fields
+                # of the object visible to the solver; the byte-wise memset model turns the whole object into an array of bytes)
+                try:
+                    org = s.cast_origin(ins.args[0][1])
+                    if org and s.sizeof(org[0]) == ins.args[2][1].v and isinstance(s.resolve(org[0]), (StructTy, ArrTy)):
+                        ct = s.cty(org[0])
+                        lines.append(f"*({ct}*){args[0]} = ({ct}){{0}};")
+                        done = True
+                except NotImplementedError:
+                    pass
+            if not done:
+                lines.append(f"memset((void*){args[0]}, {args[1]}, {args[2]});")
+            throws = False
         elif name == 'llvm.eh.typeid.for':
             ti = s.ti_of(ins.args[0][1])
             lines.append(f"{res}{s.typeinfos[ti]};"); throws = False
@@ -1326,8 +1387,21 @@ class Emitter:
         elif name == '__cxa_throw':
             ti = s.ti_of(ins.args[1][1])
             lines.append(f"__exc_obj = (void*){args[0]}; __exc_type = {s.typeinfos[ti]}; __exc_pending = 1;")
+            if s.opts.get('eh_nested'):
+                lines.append("__exc_register(__exc_obj, __exc_type);")
+        elif name == '__cxa_allocate_exception' and s.opts.get('typed_exc') and ins.res is not None and isinstance(ins.args[0][1], ConstInt) and s.new_type(f, ins) is not None:
+            # --typed-exc: like --typed-new for the exception object (an object of struct type instead of an array of bytes)
+            ct = s.cty(s.new_type(f, ins))
+            lines.append(f"_Static_assert(sizeof({ct}) == {ins.args[0][1].v}, \"typed exception object\");")
+            lines.append(f"{res}(u8*)__exc_alloc(sizeof({ct}));"); throws = False
         elif name == '__cxa_allocate_exception':
             lines.append(f"{res}(u8*)__exc_alloc({args[0]});"); throws = False
+        elif name == '__cxa_begin_catch' and s.opts.get('eh_nested'):
+            lines.append(f"{res}(u8*)__exc_begin_catch((void*){args[0]});"); throws = False
+        elif name == '__cxa_end_catch' and s.opts.get('eh_nested'):
+            lines.append("__exc_end_catch();"); throws = False
+        elif name == '__cxa_rethrow' and s.opts.get('eh_nested'):
+            lines.append("__exc_rethrow();")
         elif name == '__cxa_begin_catch':
             lines.append(f"{res}(u8*){args[0]};"); throws = False
         elif name in ('__cxa_end_catch', '__cxa_free_exception'):
@@ -1380,6 +1454,16 @@ class Emitter:
             return [f"{r} = {s.val(ins.c, IntTy(1))} ? {s.val(ins.a, ins.ty)} : {s.val(ins.b, ins.ty)};"]
         if op == 'freeze':
             return [f"{r} = {s.val(ins.a, ins.ty)};"]
+        if op == 'store' and s.opts.get('split_store') and isinstance(ins.p, Local) and isinstance(s.resolve(ins.ty), IntTy) and s.resolve(ins.ty).bits == 8:
+            # --split-store N: a byte store to  base[ variable index ]  becomes a case split over the index: 0 .. N-1 with a constant offset from
+            # base, any other index as the plain store.  (A store at a symbolic offset into an object that also holds pointers - std::string's
+            # 16-byte in-object buffer: _M_set_length - makes the model checker treat the whole object as bytes and lose those pointers.)
+            d = s.defs.get(ins.p.name)
+            if d is not None and d.op == 'gep' and len(d.idx) == 1 and not isinstance(d.idx[0][1], ConstInt) \
+                    and isinstance(s.resolve(d.base), IntTy) and s.resolve(d.base).bits == 8:
+                n = s.opts['split_store']
+                return ([f"{{ u8 *__b = (u8*){s.val(d.p, d.pty)}; u64 __i = (u64){s.val(d.idx[0][1], d.idx[0][0])}; u8 __v = {s.val(ins.v, ins.ty)};", "  switch (__i) {"]
+                        + [f"    case {k}: __b[{k}] = __v; break;" for k in range(n)] + ["    default: __b[__i] = __v; }", "}"])
         if op in ('load', 'store') and getattr(s, 'inl', None):
             lv = s.lval_of(ins.p)
             if lv is not None and lv[0] is not None:
@@ -1446,21 +1530,30 @@ class Emitter:
             return [f"{r} = {s.val(ins.a, ins.ty)};", f"{acc} = {s.val(ins.e, ins.ety)};"]
         if op == 'landingpad':
             lines = [f"{r}.f0 = (u8*)__exc_obj; {r}.f1 = 0; __exc_pending = 0;"]
+            nested = s.opts.get('eh_nested')
+            if nested:
+                lines.append("__exc_caught_adj = 0;")
             conds = []
             for (k, cv) in ins.clauses:
                 if k != 'catch':
                     raise NotImplementedError("filter clause")
                 ti = s.ti_of(cv)
                 if ti is None:
-                    conds.append(("1", "__EXC_CATCHALL"))
+                    conds.append(("1", "__EXC_CATCHALL", None))
                 else:
-                    conds.append((f"__exc_isa(__exc_type, {s.typeinfos[ti]})", str(s.typeinfos[ti])))
+                    conds.append((f"__exc_isa(__exc_type, {s.typeinfos[ti]})", str(s.typeinfos[ti]), s.typeinfos[ti]))
             first = True
-            for (c, sel) in conds:
-                lines.append(f"{'if' if first else 'else if'} ({c}) {r}.f1 = {sel};")
+            for (c, sel, tid) in conds:
+                if nested and tid is not None:
+                    # the handler receives the address of the base-class subobject it names (adjusted pointer of __cxa_begin_catch)
+                    lines.append(f"{'if' if first else 'else if'} ({c}) {{ {r}.f1 = {sel}; __exc_caught_adj = __exc_adj(__exc_type, {tid}); }}")
+                else:
+                    lines.append(f"{'if' if first else 'else if'} ({c}) {r}.f1 = {sel};")
                 first = False
             return lines
         if op == 'resume':
+            if s.opts.get('eh_nested'):
+                return [f"__exc_obj = (void*){s.val(ins.v, ins.ty)}.f0; __exc_type = __exc_type_of(__exc_obj); __exc_pending = 1; return {s.zero_of(f.ret)};"]
             return [f"__exc_obj = (void*){s.val(ins.v, ins.ty)}.f0; __exc_pending = 1; return {s.zero_of(f.ret)};"]
         raise NotImplementedError(op)
 
@@ -1468,6 +1561,21 @@ class Emitter:
     def emit(s):
         s.collect_typeinfos()
         s.cut_protos = set()
+        # --vcall: functions whose address is stored in a virtual table defined in this module
+        s.vfuncs = set()
+        if s.opts.get('vcall'):
+            def walk(v):
+                if isinstance(v, ConstAgg):
+                    for (_, ev) in v.elems:
+                        walk(ev)
+                elif isinstance(v, ConstExpr):
+                    for (_, ev) in v.args:
+                        walk(ev)
+                elif isinstance(v, Global) and (v.name in s.m.functions or v.name in s.m.declares):
+                    s.vfuncs.add(v.name)
+            for name, (ty, init, is_const) in s.m.globals.items():
+                if name.startswith('_ZTV') and init is not None:
+                    walk(init)
         body = []
         protos = []
         # function prototypes for defined and declared functions
@@ -1493,7 +1601,11 @@ class Emitter:
         gdecl = []
         for name, (ty, init, is_const) in s.m.globals.items():
             ct = s.cty(ty)
-            if init is None:
+            if init is None and s.opts.get('vcall') and (name.startswith('_ZTV') or name.startswith('_ZTI')):
+                # --vcall: virtual tables / type infos of the C++ run-time library exist as (empty) objects: only their addresses are used
+                # (a base-class constructor stores its vptr before the derived class stores its own); a call through one is reported
+                gdecl.append(f"static {ct} {s.gname(name)};")
+            elif init is None:
                 gdecl.append(f"extern {ct} {s.gname(name)};")
             else:
                 gdecl.append(f"static {ct} {s.gname(name)};")
@@ -1501,7 +1613,9 @@ class Emitter:
             if init is None:
                 continue
             ct = s.cty(ty)
-            if name.startswith('_ZTI') or name.startswith('_ZTV') or name.startswith('_ZTS'):
+            if name.startswith('_ZTV') and s.opts.get('vcall'):
+                gl.append(f"static {ct} {s.gname(name)} = {s.init(init, ty)};")   # --vcall: indirect calls compare against the entries
+            elif name.startswith('_ZTI') or name.startswith('_ZTV') or name.startswith('_ZTS'):
                 # RTTI / vtables: contents irrelevant for the lowered EH model
                 gl.append(f"static {ct} {s.gname(name)};")
             else:
@@ -1515,8 +1629,24 @@ class Emitter:
             b = s.ti_base.get(n)
             isa.append(f"      case {i}: t = {s.typeinfos[b] if b else 0}; break; /* {n} */")
         isa += ["      default: t = 0; }", "  }", "  return 0;", "}"]
+        if s.opts.get('eh_nested'):
+            # --eh-nested: __exc_adj( t, want ) = offset of the (first, non-virtual) base-class subobject of type `want` in an object of
+            # dynamic type t, or -1 if t is not derived from it; __exc_isa is defined through it (multiple inheritance included)
+            def closure(n, off, acc, depth=0):
+                acc.setdefault(n, off)
+                if depth < 16:
+                    for (bn, bo) in s.ti_bases.get(n, []) or ([(s.ti_base[n], 0)] if s.ti_base.get(n) else []):
+                        closure(bn, off + bo, acc, depth + 1)
+                return acc
+            isa = ["static long __exc_adj(int t, int want) {", "  switch (t) {"]
+            for n, i in sorted(s.typeinfos.items(), key=lambda kv: kv[1]):
+                acc = closure(n, 0, {})
+                isa.append(f"    case {i}: switch (want) {{ " + ' '.join(f"case {s.typeinfos[bn]}: return {bo};" for bn, bo in sorted(acc.items(), key=lambda kv: s.typeinfos[kv[0]])) + f" default: return -1; }} /* {n} */")
+            isa += ["    default: return -1; }", "}", "static int __exc_isa(int t, int want) { return __exc_adj(t, want) >= 0; }"]
         tinfo_defs = [f"#define TI_{cname(n)} {i}" for n, i in sorted(s.typeinfos.items(), key=lambda kv: kv[1])]
         out = [PRELUDE]
+        if s.opts.get('eh_nested'):
+            out.append(PRELUDE_EH_NESTED)
         out += tinfo_defs
         out += isa
         out += s.tydefs
@@ -1582,6 +1712,32 @@ static void *__ll2c_oob_index(void) { __VERIFIER_trap(); return 0; }   /* --spli
 '''
 
 
+# --eh-nested: what is needed to run std::current_exception / std::nested_exception / std::rethrow_exception and handlers that
+# name a non-primary base class.  Exceptions being handled form a stack (pushed by __cxa_begin_catch, popped by __cxa_end_catch);
+# the dynamic type of every thrown object is remembered (the last 8 throws), so that a C model of std::rethrow_exception can
+# throw it again; `throw;` rethrows the innermost handled exception; __cxa_begin_catch returns the adjusted pointer.
+PRELUDE_EH_NESTED = r'''
+#define __EXC_NESTED 1
+static long __exc_caught_adj;
+static void *__exc_hobj[8]; static int __exc_htype[8]; static unsigned __exc_hsp;
+static void *__exc_robj[8]; static int __exc_rtype[8]; static unsigned __exc_rn;
+static void __exc_register(void *o, int t) { __exc_robj[__exc_rn % 8] = o; __exc_rtype[__exc_rn % 8] = t; __exc_rn++; }
+static int __exc_type_of(void *o) { for (unsigned k = 0; k < 8; ++k) { unsigned i = (__exc_rn + 7 - k) % 8; if (k < __exc_rn && __exc_robj[i] == o) return __exc_rtype[i]; } return 0; }
+static void *__exc_begin_catch(void *o) {
+  if (__exc_hsp >= 8) { __exc_hsp = 0; __VERIFIER_trap(); }
+  __exc_hobj[__exc_hsp] = o; __exc_htype[__exc_hsp] = __exc_type; __exc_hsp++;
+  return (u8 *)o + __exc_caught_adj;
+}
+static void __exc_end_catch(void) { if (__exc_hsp == 0) __VERIFIER_trap(); else __exc_hsp--; }
+static void *__exc_current(void) { return __exc_hsp ? __exc_hobj[__exc_hsp - 1] : (void *)0; }
+static void __exc_rethrow(void) {
+  if (__exc_hsp == 0) { __VERIFIER_trap(); return; }
+  __exc_obj = __exc_hobj[__exc_hsp - 1]; __exc_type = __exc_htype[__exc_hsp - 1]; __exc_pending = 1;
+}
+static void __exc_throw_again(void *o) { __exc_obj = o; __exc_type = __exc_type_of(o); __exc_pending = 1; }
+'''
+
+
 def main():
     import argparse
     ap = argparse.ArgumentParser()
@@ -1595,9 +1751,15 @@ def main():
     ap.add_argument('--split-index', type=int, default=0, help='case-split variable indices into arrays of at most N elements')
     ap.add_argument('--typed-new', action='store_true', help='operator new of a constant size that is used as one struct type: allocate with sizeof(that type)')
     ap.add_argument('--inline-gep', action='store_true', help='write address computations (getelementptr, pointer bitcasts) out at every use')
+    ap.add_argument('--typed-memset', action='store_true', help='memset( p, 0, constant ) over one whole aggregate: assign a typed zero object')
+    ap.add_argument('--typed-exc', action='store_true', help='__cxa_allocate_exception of a constant size that is used as one struct type: allocate with sizeof(that type)')
+    ap.add_argument('--split-store', type=int, default=0, help='byte stores at a variable index: case split over the index 0 .. N-1 (constant offsets)')
+    ap.add_argument('--vcall', action='store_true', help='virtual tables keep their contents; indirect calls become a case split over the functions stored in them')
+    ap.add_argument('--eh-nested', action='store_true', help='stack of handled exceptions, type of thrown objects, base-class offsets in handlers (nested_exception, current_exception)')
     a = ap.parse_args()
     m = parse_module(open(a.ll).read())
-    em = Emitter(m, {'include': a.include, 'ubcheck': a.ubcheck, 'cut': a.cut, 'split_index': a.split_index, 'inline_gep': a.inline_gep, 'typed_new': a.typed_new})
+    em = Emitter(m, {'include': a.include, 'ubcheck': a.ubcheck, 'cut': a.cut, 'split_index': a.split_index, 'inline_gep': a.inline_gep, 'typed_memset': a.typed_memset, 'typed_new': a.typed_new,
+                     'vcall': a.vcall, 'eh_nested': a.eh_nested, 'split_store': a.split_store, 'typed_exc': a.typed_exc})
     c = em.emit()
     if a.header:
         open(a.header, 'w').write(em.header)
